@@ -46,7 +46,7 @@ def plan(tier):
 
 
 def n_tables(tier):
-    return 55 if tier == 'thorough' else 9
+    return 55 if tier == 'thorough' else 8
 
 
 def _tgt(rng, allow_series=True):
